@@ -3,6 +3,8 @@ engine per process, entry points by role, flavour filtering, obligations."""
 
 from __future__ import annotations
 
+import os
+import pickle
 from typing import Dict, Iterable, List, Optional, Tuple
 
 from .effects import Effect, Effects, show_effect
@@ -13,15 +15,62 @@ from .roles import PANDAS_API, POLARS_API
 _ENGINES: Dict[Tuple[int, bool], Effects] = {}
 
 
+def _digest(ix, include_pyspark) -> str:
+    import hashlib
+    h = hashlib.sha256()
+    h.update(b"pyspark" if include_pyspark else b"core")
+    for path in sorted(ix.by_path):
+        h.update(path.encode())
+        h.update(ix.by_path[path].source.encode())
+    here = os.path.dirname(os.path.abspath(__file__))
+    for fn in ("effects.py", "resolve.py", "roles.py", "index.py"):
+        with open(os.path.join(here, fn), "rb") as fh:
+            h.update(fh.read())
+    return h.hexdigest()[:24]
+
+
 def engine(ix, include_pyspark=False) -> Effects:
+    """One effect engine per process; summaries are cached on disk keyed by a digest of every analysed
+    source file and of the analyser itself (any edit to /repo or to the engine invalidates the cache)."""
     k = (id(ix), include_pyspark)
-    if k not in _ENGINES:
-        eng = Effects(ix, include_pyspark)
-        eng.run(max_rounds=60)
-        if eng.trace and eng.trace[-1][2] == -1:
-            raise AnalysisError(f"effect summaries did not reach a fixpoint in {eng.rounds} rounds")
-        _ENGINES[k] = eng
-    return _ENGINES[k]
+    if k in _ENGINES:
+        return _ENGINES[k]
+    eng = Effects(ix, include_pyspark)
+    cache_dir = os.path.join(os.path.dirname(os.path.dirname(os.path.abspath(__file__))), ".cache")
+    path = None
+    if os.environ.get("PVA_NO_CACHE") != "1" and ix.root != "<memory>":
+        try:
+            path = os.path.join(cache_dir, f"effects-{_digest(ix, include_pyspark)}.pkl")
+            if os.path.exists(path):
+                with open(path, "rb") as fh:
+                    d = pickle.load(fh)
+                eng.summaries, eng.restores, eng.param_callables = d["summaries"], d["restores"], d["param_callables"]
+                eng.trace, eng.rounds = d["trace"], d["rounds"]
+                eng.res.stats = d["stats"]
+                eng.from_cache = True
+                _ENGINES[k] = eng
+                return eng
+        except Exception:
+            path = None
+    eng.run(max_rounds=60)
+    if eng.trace and eng.trace[-1][2] == -1:
+        raise AnalysisError(f"effect summaries did not reach a fixpoint in {eng.rounds} rounds")
+    eng.from_cache = False
+    if path is not None:
+        try:
+            os.makedirs(cache_dir, exist_ok=True)
+            tmp = path + f".{os.getpid()}.tmp"
+            with open(tmp, "wb") as fh:
+                pickle.dump({"summaries": eng.summaries, "restores": eng.restores, "param_callables": eng.param_callables,
+                             "trace": eng.trace, "rounds": eng.rounds, "stats": eng.res.stats}, fh)
+            os.replace(tmp, path)
+            old = sorted((os.path.getmtime(os.path.join(cache_dir, f)), f) for f in os.listdir(cache_dir) if f.startswith("effects-"))
+            for _, f in old[:-4]:
+                os.remove(os.path.join(cache_dir, f))
+        except Exception:
+            pass
+    _ENGINES[k] = eng
+    return eng
 
 
 def api_entries(ix, names=("validate", "__call__")) -> List[Tuple[str, FuncInfo, str]]:
